@@ -1,8 +1,9 @@
 SPECIFICATION Spec
 CONSTANTS
+  MaxFeats = 1
   Mode = "merge"
   NSources = 2
-  PoolSize = 2
+  PoolSize = 4
   Variants = {0, 4}
 INVARIANT InvUpdateTouchesOnlyProps
 CHECK_DEADLOCK FALSE
